@@ -80,6 +80,7 @@ static int OPEN_MENU[O__N];
 static int NOPEN;
 
 static bool SLEEP_STOP; /* offer a stop request during retry sleeps */
+static bool RECV_STOP; /* offer a stop request while the thread blocks in a receive call of a synchronisation */
 
 /* ------------------------------------------------------------------ system under test */
 static struct pfx_table PFX;
@@ -361,8 +362,71 @@ static void on_state(const struct rtr_socket *s, const enum rtr_socket_state st,
 }
 
 /* ------------------------------------------------------------------ building the system */
+/*
+ * C18S: block accounting through the public allocator hook.  The FSM thread and the controlling thread never run
+ * at the same time, so plain counters do.  Every block carries a tag in front; a block without it did not come
+ * from this allocator.
+ */
+#include "rtrlib/lib/alloc_utils.h"
+#define AL_MAGIC 0x0ddba11c0ffee5ULL
+struct al_hdr {
+	uint64_t magic;
+	size_t size;
+};
+static long AL_LIVE, AL_LIVE_BYTES, AL_FOREIGN;
+
+static void *al_malloc(size_t n)
+{
+	struct al_hdr *h = malloc(sizeof(*h) + n);
+
+	if (!h)
+		return NULL;
+	h->magic = AL_MAGIC;
+	h->size = n;
+	AL_LIVE++;
+	AL_LIVE_BYTES += (long)n;
+	return h + 1;
+}
+
+static void al_free(void *p)
+{
+	struct al_hdr *h;
+
+	if (!p)
+		return;
+	h = (struct al_hdr *)p - 1;
+	if (h->magic != AL_MAGIC) {
+		AL_FOREIGN++;
+		return;
+	}
+	h->magic = 0;
+	AL_LIVE--;
+	AL_LIVE_BYTES -= (long)h->size;
+	free(h);
+}
+
+static void *al_realloc(void *p, size_t n)
+{
+	struct al_hdr *h;
+	void *q;
+
+	if (!p)
+		return al_malloc(n);
+	h = (struct al_hdr *)p - 1;
+	q = al_malloc(n);
+	if (!q)
+		return NULL;
+	memcpy(q, p, h->size < n ? h->size : n);
+	al_free(p);
+	return q;
+}
+
 static void sut_build(void)
 {
+	if (is_prop("C18S")) {
+		lrtr_set_alloc_functions(al_malloc, al_realloc, al_free);
+		AL_LIVE = AL_LIVE_BYTES = AL_FOREIGN = 0;
+	}
 	pfx_table_init(&PFX, NULL);
 	spki_table_init(&SPKI, NULL);
 	if (CFG_WITH_X) {
@@ -871,6 +935,20 @@ static int hook_recv_empty(size_t want, time_t timeout)
 			break;
 		}
 	}
+	/* a stop request while the thread blocks in a receive call of a synchronisation (first PDU or payload) */
+	if (RECV_STOP && SOCK->state != RTR_ESTABLISHED && ENV.tail == TAIL_TIMEOUT && N_STOPS < CFG_MAX_STOPS && env_cancel_enabled()) {
+		int c;
+
+		WHERE = "recv";
+		c = ex_choose(2, 1);
+		if (c < 0)
+			env_end_run(PARK_HORIZON);
+		if (c == 1) {
+			ev("stop-socket(while receiving, %s)", LAST.nbytes ? "response under way" : "nothing received");
+			N_STOPS++;
+			env_end_run(PARK_STOP);
+		}
+	}
 	switch (ENV.tail) {
 	case TAIL_ERROR:
 		return TR_ERROR;
@@ -951,19 +1029,50 @@ static void run_one(void)
 	ENV.horizon_calls = 6000;
 	PENDING_MENU = -1;
 	sut_build();
+	bool stopped_for_good = false;
+
 	reason = env_fsm_start_and_wait(SOCK);
 	while (reason == PARK_STOP) {
 		env_fsm_real_stop(SOCK);
 		after_stop_checks();
+		if (is_prop("C18S")) {
+			/* the thread is gone through the library's own stop path: whatever is still allocated after the tables are freed is lost */
+			stopped_for_good = true;
+			break;
+		}
 		ev("rtr_start");
 		reason = env_fsm_start_and_wait(SOCK);
 	}
-	env_fsm_reap(SOCK);
+	if (!stopped_for_good)
+		env_fsm_reap(SOCK);
 	if (ENV.livelock)
 		violation("livelock", "more than 400 consecutive environment calls without consuming input, sending or letting time advance");
 	if (!x_intact() && !is_prop("C07"))
 		violation("other-source-altered", "records of another source changed during the conversation");
 	sut_destroy();
+	if (is_prop("C18S")) {
+		char what[300];
+
+		if (AL_FOREIGN) {
+			snprintf(what, sizeof(what), "%ld block(s) handed to the configured free function did not come from the configured allocator", AL_FOREIGN);
+			violation("foreign-block-freed", what);
+		}
+		/*
+		 * only executions that ended through rtr_stop are judged: when the harness ends an execution at its
+		 * horizon the thread leaves from inside a transport call and what the library holds there is the harness's doing
+		 */
+		if (stopped_for_good) {
+			V_COUNT("stops_judged", 1);
+			if (AL_LIVE) {
+				snprintf(what, sizeof(what),
+					 "after rtr_stop returned and both tables were freed %ld block(s) (%ld bytes) obtained from the configured allocator are still allocated",
+					 AL_LIVE, AL_LIVE_BYTES);
+				violation(WHERE && !strcmp(WHERE, "recv") ? "leak-after-stop|while-receiving" :
+					  WHERE && !strcmp(WHERE, "sleep") ? "leak-after-stop|during-retry-wait" : "leak-after-stop|while-established",
+					  what);
+			}
+		}
+	}
 }
 
 /* ------------------------------------------------------------------ C08: default continuation from a state */
@@ -1132,6 +1241,18 @@ static void setup_menus(void)
 		menu_add(RS_TIMEOUT);
 		IDLE_MENU[NIDLE++] = I_NOTIFY;
 		IDLE_MENU[NIDLE++] = I_ERROR;
+	} else if (is_prop("C18S")) {
+		/* conversations with a stop request at every point where the thread can be cancelled */
+		menu_add(RS_OK_NEW);
+		menu_add(RS_CACHE_RESET);
+		menu_add(RS_CUT_TIMEOUT);
+		menu_add(RS_DUP);
+		menu_add(RS_TIMEOUT);
+		OPEN_MENU[NOPEN++] = O_FAIL;
+		IDLE_MENU[NIDLE++] = I_STOP;
+		IDLE_MENU[NIDLE++] = I_ERROR;
+		SLEEP_STOP = true;
+		RECV_STOP = true;
 	}
 }
 
